@@ -146,24 +146,46 @@ Qed.
 
 (* ---------- args.json / options.json ---------- *)
 Lemma finish_spec rc ser ae oe hv :
-  (rc <> 0 -> finish_execution rc ser ae oe hv = None) /\
-  (rc = 0 -> exists pre,
-     finish_execution rc ser ae oe hv = Some (pre ++ (if hv then [InsertRow; CommitIndex] else [])) /\
-     ~ In InsertRow pre /\ ~ In CommitIndex pre /\
-     (In WriteArgsJson pre <-> ser = true /\ ae = false) /\
-     (In WriteOptionsJson pre <-> ser = true /\ oe = false)).
+  exists pre post,
+    finish_execution rc ser ae oe hv = pre ++ post /\
+    (forall e, In e pre -> e = WriteArgsJson \/ e = WriteOptionsJson) /\
+    (In WriteArgsJson pre <-> ser = true /\ ae = false) /\
+    (In WriteOptionsJson pre <-> ser = true /\ oe = false) /\
+    (rc <> 0 -> post = [RaiseNonZeroExit]) /\
+    (rc = 0 -> post = if hv then [InsertRow; CommitIndex] else []).
 Proof.
-  unfold finish_execution. split.
+  unfold finish_execution. eexists. eexists. split; [reflexivity|].
+  split; [|split; [|split; [|split]]].
+  - destruct ser, ae, oe; simpl; intuition.
+  - destruct ser, ae, oe; simpl; intuition (auto; try discriminate; try congruence).
+  - destruct ser, ae, oe; simpl; intuition (auto; try discriminate; try congruence).
   - intros H. apply N.eqb_neq in H. now rewrite H.
-  - intros ->. simpl. eexists. split; [reflexivity|].
-    destruct ser, ae, oe; simpl; intuition (auto; try discriminate; try congruence).
+  - intros ->. reflexivity.
 Qed.
 
 Lemma record_rule_spec {A B} (args : list A) (opts : list B) rc :
   record_rule args opts rc =
-  ((rc =? 0) && match args with [] => false | _ => true end,
-   (rc =? 0) && match opts with [] => false | _ => true end).
+  (match args with [] => false | _ => true end, match opts with [] => false | _ => true end).
 Proof.
-  unfold record_rule, finish_execution. destruct (rc =? 0); simpl; [|reflexivity].
-  destruct args, opts; reflexivity.
+  unfold record_rule, finish_execution. destruct (rc =? 0); destruct args, opts; reflexivity.
+Qed.
+
+(* ---------- Conductor's own stream stops accepting data ---------- *)
+Lemma tee_loop_f_spec cs : forall ok tail file stream,
+  Forall nonempty cs -> eof_tail tail ->
+  tee_loop_f ok (cs ++ tail) file stream = (file ++ concat cs, stream ++ concat (firstn ok cs)).
+Proof.
+  induction cs as [|d cs IH]; intros ok tail file stream Hne Ht; simpl.
+  - rewrite firstn_nil. simpl. rewrite !app_nil_r. destruct Ht as [->|[junk ->]]; destruct ok; reflexivity.
+  - inversion Hne as [|? ? Hd Hcs]; subst. destruct d as [|x d]; [now elim Hd|].
+    destruct ok as [|k]; rewrite IH by assumption.
+    + cbn [firstn concat]. now rewrite <- !app_assoc, !app_nil_r.
+    + cbn [firstn concat]. now rewrite <- !app_assoc.
+Qed.
+
+Lemma tee_loop_f_never_fails cs : forall file stream,
+  tee_loop_f (length cs) cs file stream = tee_loop cs file stream.
+Proof.
+  induction cs as [|d cs IH]; intros file stream; [reflexivity|]. cbn [length tee_loop_f tee_loop].
+  destruct d; [reflexivity | apply IH].
 Qed.
